@@ -526,7 +526,11 @@ static void classify_err(int k, char *cls, size_t clen, char *tail, size_t tlen)
         if (fn[0] && strlen(cls) + strlen(fn) + 2 < clen) { strcat(cls, "@"); strcat(cls, fn); }
 }
 
-/* re-run one timed out case alone with a longer limit before calling it a hang */
+/* re-run one timed out case alone with a longer limit (5x, at most 10 minutes) before calling it a hang.  Once one
+ * hang of the run is confirmed the verdict of the run is settled (a violation), and further timed out cases are
+ * taken for hangs at once: a tree that loops in many cases must still be reported within the limit of bin/check. */
+static int hang_confirmed;
+static int confirm_limit(int timeout_s) { int t = timeout_s * 5; return t > 600 ? (timeout_s > 600 ? timeout_s : 600) : t; }
 static int confirm_hang(uint64_t idx, mc_case_fn fn, void *arg, int timeout_s)
 {
         pid_t p = fork();
@@ -534,7 +538,7 @@ static int confirm_hang(uint64_t idx, mc_case_fn fn, void *arg, int timeout_s)
                 my_slot = MAXW - 1;
                 worker_open(MAXW - 1, 1);
                 cur_idx = idx;
-                alarm(timeout_s * 5 + 5);
+                alarm(confirm_limit(timeout_s) + 5);
                 fn(idx, arg);
                 _exit(0);
         }
@@ -595,11 +599,11 @@ int mc_pool(const char *phase, uint64_t ncases, mc_case_fn fn, void *arg, int ti
                 char cls[160], tail[1500], key[KEYLEN + 200], det[DETLEN + 1700], chs[MAXCHOICES * 4] = "", hs[200] = "";
                 classify_err(k, cls, sizeof cls, tail, sizeof tail);
                 int hang = WIFSIGNALED(st) && WTERMSIG(st) == SIGALRM;
-                if (hang && !confirm_hang(w->cur, fn, arg, timeout_s)) {
+                if (hang && !hang_confirmed && !confirm_hang(w->cur, fn, arg, timeout_s)) {
                         mc_count("_slow_cases_rerun_ok", 1); reran++;
                 } else {
                         if (!cls[0]) {
-                                if (hang) snprintf(cls, sizeof cls, "hang>%ds", timeout_s * 5);
+                                if (hang) snprintf(cls, sizeof cls, "hang>%ds", confirm_limit(timeout_s));
                                 else if (WIFSIGNALED(st)) snprintf(cls, sizeof cls, "signal:%d", WTERMSIG(st));
                                 else if (WEXITSTATUS(st) == 43) snprintf(cls, sizeof cls, "scheduler-abort");
                                 else snprintf(cls, sizeof cls, "exit:%d", WEXITSTATUS(st));
@@ -611,6 +615,11 @@ int mc_pool(const char *phase, uint64_t ncases, mc_case_fn fn, void *arg, int ti
                         key[KEYLEN - 1] = 0; det[DETLEN - 1] = 0;
                         parent_add_violation(key, det, phase, w->cur, chs, hs);
                         crashes++;
+                        if (hang) {
+                                hang_confirmed++;
+                                if (hang_confirmed >= 3) { atomic_store(&S->stop, 1); exhaustive = 0;
+                                        add_str(&notes, &nnotes, "phase stopped after 3 hanging cases", 64, 1); continue; }
+                        }
                 }
                 if (crashes >= 40) { atomic_store(&S->stop, 1); exhaustive = 0;
                         add_str(&notes, &nnotes, "phase stopped after 40 crashing cases", 64, 1); continue; }
